@@ -276,7 +276,21 @@ impl EncodingVersion for EncodingVersion1 {
         member: &DynamicTypeMember,
         dynamic_data: &mut DynamicData,
     ) -> XTypesResult<()> {
-        Self::deserialize_mmember(deserializer, member, dynamic_data)
+        // Unlike the members of a mutable type, which are looked up by their id, the optional
+        // member of a final type is the next element of the stream and the members that follow
+        // are read after it
+        Self::align(deserializer, 4)?;
+        let pid: u16 = deserializer.deserialize_primitive_type()?;
+        let length: u16 = deserializer.deserialize_primitive_type()?;
+        if pid & 0b00111111_11111111 != member.get_id() as u16 {
+            return Err(XTypesError::InvalidData);
+        }
+        let value_pos = deserializer.reader.pos;
+        if length > 0 {
+            deserializer.deserialize_value(member, dynamic_data)?;
+        }
+        deserializer.reader.pos = value_pos;
+        deserializer.reader.seek(length as usize)
     }
 
     /// Structures with extensibility MUTABLE, version 1 encoding
